@@ -77,7 +77,20 @@ META = {
     "which feeds finalise with the results of all writes; such runs are compared with the model and judged only up "
     "to the deletion.  _ensure_init(final_write=True) has no caller and is not modelled.  Exhaustive enumeration "
     "covers the stated thread counts only; larger configurations are covered by the theorems, not by the "
-    "correspondence.  Until branch fix-C18 (F5, F4, F17) is merged the check reports these three defects on /repo.",
+    "correspondence.  Growth round: file-system model of MPUFileSink (FS with parts directories keyed by (root, full "
+    "destination name); sinks_never_interfere, sink_contract_among_others, parts_dir_injective_on_destinations, "
+    "common_parts_base_cex: the same destination NAME under a COMMON parts_base shares one parts directory on the "
+    "code as it is - known finding K24, key sink:same-name-under-common-parts-base-collides, printed as "
+    "KNOWN-FINDING on every run from one deterministic case; all its interleavings are compared with the model), the link "
+    "C18 o C06 (Props/C18C06.lean: mpu_write_to_file_sink - C06.run's writer calls performed on the C18 sink leave "
+    "header ++ stream ++ footer and no parts), s3_parse_url / url / dask tokens.  INVENTORY of anchored code not "
+    "mirrored by the Lean model: MultiPartUpload.s3_client (botocore session/credentials), read(), upload() and the "
+    "mpu_write wiring (C06), list_active's pagination; DelayedS3Writer._ensure_init(final_write=True) (no caller), "
+    "_build_name's tokenize (names are abstract per worker; agreement is checked across real interpreter processes), "
+    "_safe_get's timeout (a spurious None), _shared's lazy Variable creation race (benign: same name); "
+    "MPUFileSink._ensure_dst_file's mkdir race (FileExistsError swallowed), the assert nb == len(data) in __call__ "
+    "(short writes are injected on the real code only), rename across file systems, a destination that is itself "
+    "named like another sink's parts directory; bytes are letters (no binary content).",
     "technique": "Lean 4 proof over hand model (transition system, invariant by induction over schedules) + "
     "differential correspondence with the real code under a deterministic scheduler",
     "design_ref": "DESIGN.md §4 C18",
@@ -205,6 +218,10 @@ def _schedules(R: Run, S, procs, pool, xnames=None):
 
     hot = {"on": False}
 
+    def failing():
+        """a failing input that is not a registered known finding (K24 fires on every run) has been seen"""
+        return any(R.match_known(f["key"]) is None for f in R.oracle_failures)
+
     def early_mismatch(n0):
         """sample this configuration's lines through the driver right away: a changed protocol is noticed
         before the remaining configurations are enumerated at full budget"""
@@ -222,7 +239,7 @@ def _schedules(R: Run, S, procs, pool, xnames=None):
     def exhaustive(variant, kinds, workers, coarse, tag, gate=False, oracle=True):
         # wall-clock valve per configuration, far above what the unchanged protocol needs; once the protocol is
         # known to have changed (failing input or model mismatch), later configurations are only sampled
-        budget = 0.3 if R.oracle_failures else 1.0 if hot["on"] else R.pick(30, 240)
+        budget = 0.3 if failing() else 1.0 if hot["on"] else R.pick(30, 240)
         n0 = len(R.lines)
         obs, truncated = S.enumerate_all(kinds, workers, coarse, procs=procs, gate_fin=gate, budget_s=budget, pool=pool)
         if truncated:
@@ -234,7 +251,7 @@ def _schedules(R: Run, S, procs, pool, xnames=None):
         early_mismatch(n0)
 
     def rand(variant, kinds, workers, n, gate=False, oracle=True):
-        if R.oracle_failures or hot["on"]:
+        if failing() or hot["on"]:
             n = min(n, 60)
         seeds = [R.rng.randrange(1 << 60) for _ in range(n)]
         for o in S.random_runs(kinds, workers, seeds, procs=procs, gate_fin=gate, pool=pool):
@@ -689,25 +706,42 @@ SINK_PAIRS = [
 ]
 
 
-def multi_sink_case(R: Run, root: Path, a: str, b: str, base_kind, order, keep: bool, datas):
+K24_KEY = "sink:same-name-under-common-parts-base-collides"
+
+
+def multi_sink_case(R: Run, root: Path, a: str, b: str, base_kind, order, keep: bool, datas, collide: bool = False,
+                    k24: bool = False):
     """two sinks alive at once; `order` interleaves their operations (0 / 1 = next operation of sink A / B, each
-    doing write 1, write 2, finalise).  Correspondence: every sink behaves exactly as the single-sink model says
-    it does alone.  Oracle: every destination holds exactly its own bytes, nothing foreign or left over remains."""
+    doing write 1, write 2, finalise).  Correspondence: the file-system model `FS.run` (driver op `msink`), which
+    also predicts what happens when the two share a parts directory.  Oracle (pairs that do not share one): every
+    destination holds exactly its own bytes, nothing foreign or left over remains."""
     from odc.geo.cog._mpu_fs import MPUFileSink
 
     work = Path(tempfile.mkdtemp(dir=root))
     (work / "d").mkdir()
     (work / "e").mkdir()
-    bases = {None: (None, None), "common": (work / "pb", work / "pb"), "own": (work / "pb0", work / "pb1")}[base_kind]
+    bnames = {None: (None, None), "common": ("pb", "pb"), "own": ("pb0", "pb1")}[base_kind]
+    bases = [None if n is None else work / n for n in bnames]
     dsts = [work / a, work / b]
     res: List[Dict[str, Any]] = [{}, {}]
+    cfgs, ops = [], []
+    for i, d in enumerate((a, b)):
+        dr, nm = d.rsplit("/", 1)
+        cfgs.append(f"{dr}|{nm}|{bnames[i] or 'N'}")
+    cnt = [0, 0]
+    for i in order:
+        k = cnt[i]
+        cnt[i] += 1
+        ops.append(f"{i}:w:{k + 1}:{datas[i][k]}" if k < 2 else f"{i}:f:{'T' if keep else 'F'}:1.2")
+    line = f"c18 msink {list_s(cfgs)} {list_s(ops)}"
 
     def real():
         sinks = [MPUFileSink(dsts[i], parts_base=bases[i]) for i in (0, 1)]
         recs: List[List[Dict[str, Any]]] = [[], []]
-        errs = ["ok", "ok"]
+        errs, last = [], ["ok", "ok"]
         for i in order:
             k = len(recs[i])
+            e = "ok"
             try:
                 if k < 2:
                     recs[i].append(sinks[i](k + 1, datas[i][k].encode()))
@@ -715,36 +749,43 @@ def multi_sink_case(R: Run, root: Path, a: str, b: str, base_kind, order, keep: 
                     recs[i].append(None)
                     sinks[i].finalise(recs[i][:2], keep_parts=keep)
             except AssertionError:
-                errs[i] = "ERR:AssertionError"
+                e = "ERR:AssertionError"
             except FileNotFoundError:
-                errs[i] = "ERR:FileNotFoundError"
+                e = "ERR:FileNotFoundError"
             except ValueError:
-                errs[i] = "ERR:ValueError"
+                e = "ERR:ValueError"
             except OSError:
-                errs[i] = "ERR:OSError"
+                e = "ERR:OSError"
+            errs.append(e)
+            if k >= 2:
+                last[i] = e
         outs = []
         for i in (0, 1):
-            pdir = Path(recs[i][0]["Path"]).parent if recs[i] and recs[i][0] else None
+            pdir = (dsts[i].parent if bases[i] is None else bases[i]) / f".{dsts[i].name}.parts"
             content = dsts[i].read_bytes().decode() if dsts[i].is_file() else None
             left = []
-            if pdir is not None and pdir.is_dir():
+            if pdir.is_dir():
                 left = sorted((int(f.name[1:-4]), f.read_bytes().decode()) for f in pdir.iterdir())
-            res[i].update(err=errs[i], content=content, left=left, dir=bool(pdir is not None and pdir.is_dir()))
-            outs.append(f"{errs[i]} ; dst{'N' if content is None else '=' + content} ; "
-                        f"parts={list_s([f'{p}:{d}' for p, d in left])} ; dir={'T' if res[i]['dir'] else 'F'}")
+            res[i].update(err=last[i], content=content, left=left, dir=pdir.is_dir())
+            outs.append(f"dst{'N' if content is None else '=' + content} ; "
+                        f"parts={list_s([f'{p}:{d}' for p, d in left])} ; dir={'T' if pdir.is_dir() else 'F'}")
         res[0]["tree"] = sorted(str(f.relative_to(work)) for f in work.rglob("*") if f.is_file())
-        return " | ".join(outs)
+        return f"{','.join(errs)} | {' | '.join(outs)}"
 
-    def line(i):
-        return f"c18 sink T {list_s([f'{p + 1}:{d}' for p, d in enumerate(datas[i])])} [1,2] {'T' if keep else 'F'}"
-
-    # the model side is two independent single-sink runs: registered as two lines, the real text split accordingly
-    text = guarded(real)
-    halves = text.split(" | ") if " | " in text else [text, text]
-    for i in (0, 1):
-        R.corr(line(i), lambda i=i: halves[i], sig=f"multi-sink|{base_kind}|keep={keep}")
+    R.corr(line, real, sig=f"multi-sink|{base_kind}|keep={keep}" + ("|shared-parts-dir" if collide else ""))
     case = {"a": a, "b": b, "base": base_kind, "order": list(order), "keep": keep, "data": datas}
-    if res[0]:
+    # known finding K24 (Lean: common_parts_base_cex): the property itself, on the one case per run that asks for it.
+    # Tight guard: same file NAME, different directories, a COMMON parts_base - anything else that interferes is
+    # reported under sink:two-sinks-interfere.
+    if res[0] and k24 and collide:
+        (da, na), (db, nb) = a.rsplit("/", 1), b.rsplit("/", 1)
+        if na == nb and da != db and base_kind == "common":
+            ok = all(res[i]["err"] == "ok" and res[i]["content"] == "".join(datas[i]) for i in (0, 1))
+            R.oracle(ok, K24_KEY, case,
+                     f"K24: {a} holds {res[0]['content']!r} (own parts {''.join(datas[0])!r}, finalise {res[0]['err']}), "
+                     f"{b} holds {res[1]['content']!r} (own parts {''.join(datas[1])!r}, finalise {res[1]['err']}): "
+                     "both sinks use the parts directory pb/.x.tif.parts")
+    if res[0] and not collide:
         for i in (0, 1):
             want = "".join(datas[i])
             R.oracle(res[i]["err"] == "ok" and res[i]["content"] == want, "sink:two-sinks-interfere", {**case, "sink": i},
@@ -768,6 +809,14 @@ def multi_sink_cases(R: Run, root: Path):
             if datas[0] == datas[1]:
                 datas[1][1] += "z"  # the two sinks must be distinguishable by content
             multi_sink_case(R, root, a, b, base_kind, order, keep=(n % 5 == 0), datas=datas)
+    # the same destination NAME in two directories under a COMMON parts_base: the two sinks share one parts directory
+    # (known finding K24, Lean `common_parts_base_cex`): every interleaving is compared with the file-system model; the
+    # property oracle is evaluated on ONE deterministic case per run, which prints the KNOWN-FINDING line
+    multi_sink_case(R, root, "d/x.tif", "e/x.tif", "common", (0, 1, 0, 1, 0, 1), keep=False,
+                    datas=[["AA", "AA"], ["b", "b"]], collide=True, k24=True)
+    for n, order in enumerate(orders):
+        datas = [["".join(rng.choice(LETTERS) for _ in range(rng.choice([1, 2, 3]))) for _ in range(2)] for _ in range(2)]
+        multi_sink_case(R, root, "d/x.tif", "e/x.tif", "common", order, keep=(n % 5 == 0), datas=datas, collide=True)
 
 
 # ------------------------------------------------------------------ limits
@@ -800,6 +849,33 @@ def limit_cases(R: Run, root: Path):
         names = KW + [a for a in accs if a not in KW]
         return list_s([f"{a}={getattr(obj, a)}" for a in names])
 
+    # addresses and identities: s3_parse_url, MultiPartUpload.url, the dask tokens
+    rng = R.rng
+    names = ["bucket", "b", "my-bucket.with.dots", "B_1"]
+    keys = ["k", "a/b/c.tif", "", "x//y", "dir/", "a.tif/", "ünï/cödé.tif"]
+    for b in names:
+        for k in keys:
+            m = _s3.MultiPartUpload(b, k)
+            if k:
+                R.corr(f"c18 mpuurl {b} {k}", lambda: m.url, sig="url")
+            R.corr(f"c18 parseurl {m.url}", lambda: " ".join(_s3.s3_parse_url(m.url)), sig="parse-url|s3")
+            R.oracle(_s3.s3_parse_url(m.url) == (b, k), "address:parse-url-does-not-invert-url", {"bucket": b, "key": k},
+                     f"s3_parse_url({m.url!r}) = {_s3.s3_parse_url(m.url)}")
+            for uid in ("", "id1", "x" * 9):
+                m.uploadId = uid
+                w = _s3.DelayedS3Writer(m, {})
+                if k:
+                    R.corr(f"c18 tokens {b} {k} {uid or '-'}",
+                           lambda: f"{list_s(m.__dask_tokenize__())} {list_s(w.__dask_tokenize__())}", sig="tokens")
+                R.oracle(w.__dask_tokenize__() == _s3.DelayedS3Writer(_s3.MultiPartUpload(b, k), {}).__dask_tokenize__(),
+                         "address:writer-token-depends-on-upload-id", {"bucket": b, "key": k, "uploadId": uid},
+                         f"{w.__dask_tokenize__()}")
+    for u in ("http://bucket/key", "s3:/bucket/key", "S3://bucket/key", "bucket/key", "s3://", "s3://b", "s3:///k", "/s3://b/k"):
+        R.corr(f"c18 parseurl {u}", lambda: " ".join(_s3.s3_parse_url(u)), sig="parse-url|other")
+    for dr, nm, base in (("/d", "x.tif", None), ("/d/e", "a.b.c", "/pb"), ("/d", ".hidden", None), ("/d", "x", "/d")):
+        sk = _mpu_fs.MPUFileSink(f"{dr}/{nm}", parts_base=base)
+        R.corr(f"c18 sinktoken {dr}|{nm}|{base or 'N'}", lambda: list_s(str(x) for x in sk.__dask_tokenize__()),
+               sig="sink-token")
     # two-sided: the limits of the S3 multipart API (5 MiB .. 5 GiB per part, part numbers 1 .. 10000) and
     # the documented defaults of the file sink, independent of the Lean model
     s3_doc = {"min_write_sz": 5 * 1024 * 1024, "max_write_sz": 5 * 1024 ** 3, "min_part": 1, "max_part": 10000}
@@ -953,12 +1029,24 @@ def replay(R: Run, rec) -> int:
         for f in probe.oracle_failures:
             print("FAILS:", f["key"], "-", f["what"])
         return 1 if probe.oracle_failures else 0
+    if key == K24_KEY:
+        root = Path(tempfile.mkdtemp(prefix="c18-"))
+        try:
+            probe = Run(R.prop, R.tier, R.seed)
+            multi_sink_case(probe, root, case["a"], case["b"], case["base"], case["order"], case["keep"], case["data"],
+                            collide=True, k24=True)
+            print("real :", probe.real[0])
+            for f in probe.oracle_failures:
+                print("FAILS:", f["key"], "-", f["what"])
+            return 1 if probe.oracle_failures else 0
+        finally:
+            shutil.rmtree(root, ignore_errors=True)
     if key in ("sink:two-sinks-interfere", "sink:two-sinks-leave-files"):
         root = Path(tempfile.mkdtemp(prefix="c18-"))
         try:
             probe = Run(R.prop, R.tier, R.seed)
             multi_sink_case(probe, root, case["a"], case["b"], case["base"], case["order"], case["keep"], case["data"])
-            print("real :", probe.real[0], "|", probe.real[1])
+            print("real :", probe.real[0])
             for f in probe.oracle_failures:
                 print("FAILS:", f["key"], "-", f["what"])
             return 1 if probe.oracle_failures else 0
